@@ -182,7 +182,7 @@ func (s *Sched) Yield(point string) {
 
 // gateOnly lock gates are not scheduling points of their own: the task only
 // parks there when the lock is busy (held by a parked or blocked task).
-var gateOnly = map[string]bool{"store.csm-r": true, "store.csm-w": true, "store.singleVLogMu": true}
+var gateOnly = map[string]bool{"store.csm-r": true, "store.csm-w": true, "store.singleVLogMu": true, "db.mutex-r": true, "db.mutex-w": true}
 
 // BeforeLock is a scheduling point that is only released while try() holds.
 func (s *Sched) BeforeLock(point string, try func() bool) {
